@@ -53,6 +53,11 @@ def make_service(P):
     @P.server.expose
     class Svc(object):
         def echo(self, token):
+            # a trace id sent with the request travels back with the reply (what tracing middleware does): each reply carries its own call's
+            ctx = P.callcontext.current_context
+            trid = (ctx.annotations or {}).get("TRID")
+            if trid is not None:
+                ctx.response_annotations["TRID"] = bytes(trid)
             return token
 
         def mark(self, key):
@@ -199,6 +204,10 @@ def hostile_items(P, r, ser, base_kind):
     ann = [(b"ABCD", b"12345")]
     good_ann = wire.encode(base[6], 0, 1, base[7], body, ann)
     items.append(("annotation-ok", good_ann))
+    if base_kind == "invoke":
+        # well-framed requests with a trace id of the hostile client's choosing (small, and as large as the message limit lets it be)
+        items.append(("trace-id", wire.encode(base[6], 0, 1, base[7], body, [(b"TRID", b"HOSTILE-TRACE-ID")])))
+        items.append(("trace-id-large", wire.encode(base[6], 0, 1, base[7], body, [(b"TRID", b"H" * 60000)])))
     items.append(("annotation-len-overrun", good_ann[:44] + wire.u32(9999) + good_ann[48:]))
     items.append(("annotation-len-underrun", good_ann[:44] + wire.u32(1) + good_ann[48:]))
     items.append(("annotation-nonascii-id", good_ann[:40] + b"\xff\xfe\xfd\xfc" + good_ann[44:]))
@@ -286,6 +295,8 @@ class Witness(threading.Thread):
                     tok += "-" + "L" * 150000         # now and then a well-behaved client's request and reply are large (well within MAX_MESSAGE_SIZE)
                 t_send = time.monotonic()
                 want_exc = n % 5 == 0
+                trid = ("w%d-%d" % (self.wid, n)).encode()
+                P.callcontext.current_context.annotations = {"TRID": trid}
                 try:
                     if want_exc:
                         try:
@@ -328,6 +339,12 @@ class Witness(threading.Thread):
                 last_reply = time.monotonic()
                 if last_reply - t_send > 20.0:
                     self.slow_calls += 1
+                # the annotations of the reply: the daemon's own (its long-lived dict) and, for echo, this call's trace id - nobody else's
+                ra = {k: bytes(v) for k, v in dict(P.callcontext.current_context.response_annotations or {}).items()}
+                want_ra = {"NODE": b"c05-node"} if want_exc else {"NODE": b"c05-node", "TRID": trid}
+                if got == tok and ra != want_ra:
+                    self.problems.append("witness %d call %d: the reply carries annotations %s, its own are %s" % (self.wid, n, core.short(ra, 200), want_ra))
+                    break
                 if got != tok:
                     self.problems.append("witness %d %s %s, got %s" % (self.wid, "expected its call to raise KeyError" if want_exc else "sent", core.short(tok, 60), core.short(got, 200)))
                     break
@@ -679,6 +696,7 @@ def run_config(P, cfg, rec, r, n_items):
                 pass
             raise
     fx.daemon.handleRequest = observed_handle_request
+    fx.daemon.reply_annotations = {"NODE": b"c05-node"}       # (the application's long-lived Daemon.annotations() dict)
     try:
         fx.register(make_service(P), "svc")
         if cfg.get("bc"):
